@@ -248,9 +248,9 @@ Inductive op :=
 | OpTree (e : itree)                     (* push the value of a bracketing of + over registers *)
 | OpResolve (specs : list str)           (* push resolver.resolve(specs); resolver table given with the history *)
 | OpSum (l : list nat)                   (* push sum([regs...]) (non-empty lists: 0 + p is p, then +) *)
-| OpInit (b : bool) (u : option nat)     (* backend b: processing_pipeline := reg u; init_processing_pipeline *)
-| OpRun (b : bool)                       (* backend b: convert_rule on every rule + finalize, no re-initialisation *)
-| OpConvert (b : bool) (u : option nat). (* backend b: processing_pipeline := reg u; Backend.convert() *)
+| OpInit (b : bool) (u : option nat) (f : fmt)     (* backend object b: processing_pipeline := reg u; init_processing_pipeline(f) *)
+| OpRun (b : bool) (f : fmt)                       (* backend object b: convert_rule(rule, f) on every rule + finalize(queries, f) *)
+| OpConvert (b : bool) (u : option nat) (f : fmt). (* backend object b: processing_pipeline := reg u; convert(rules, f) *)
 Definition C_Harness : N := 98.          (* ill-formed program (register out of range): never generated *)
 
 Fixpoint itree_ok (n : nat) (e : itree) : bool :=
@@ -348,10 +348,13 @@ Definition ainit (f : fmt) (bk : apipe) (user : option apipe) (outf : apipe) : o
   obind (match user with None => Ok bk | Some u => aplus_checked bk u end) (fun s1 =>
   obind (aplus_checked s1 outf) (fun s2 => Ok (with_backend_vars f s2))).
 
-Record amach := { am_regs : list apipe; am_lastA : option apipe; am_lastB : option apipe;
+(* of a backend object the specification remembers only the user pipeline it was last given
+   (Some None: none): a conversion runs backend + user + the output-format pipeline OF THE REQUESTED
+   FORMAT, composed from the values *)
+Record amach := { am_regs : list apipe; am_lastA : option (option apipe); am_lastB : option (option apipe);
                   am_res : option result; am_fresh : N }.
 Definition am_last (m : amach) (b : bool) := if b then am_lastB m else am_lastA m.
-Definition am_set_last (m : amach) (b : bool) (p : apipe) : amach :=
+Definition am_set_last (m : amach) (b : bool) (p : option apipe) : amach :=
   {| am_regs := am_regs m; am_lastA := if b then am_lastA m else Some p;
      am_lastB := if b then Some p else am_lastB m; am_res := am_res m; am_fresh := am_fresh m |}.
 Definition am_user (m : amach) (u : option nat) : outcome (option apipe) :=
@@ -363,7 +366,9 @@ Definition am_push (m : amach) (c : N) (p : apipe) : amach :=
   {| am_regs := am_regs m ++ [p]; am_lastA := am_lastA m; am_lastB := am_lastB m; am_res := am_res m; am_fresh := c |}.
 Definition am_with_res (m : amach) (r : result) : amach :=
   {| am_regs := am_regs m; am_lastA := am_lastA m; am_lastB := am_lastB m; am_res := Some r; am_fresh := am_fresh m |}.
-Definition astep (f : fmt) (t : list (str * rent aval)) (bk outf : apipe) (rules : list rule)
+Definition fmt_eqb (a b : fmt) : bool :=
+  match a, b with FDefault, FDefault | FTest, FTest | FState, FState => true | _, _ => false end.
+Definition astep (t : list (str * rent aval)) (bk : apipe) (outf : fmt -> apipe) (rules : list rule)
            (acc : outcome amach) (o : op) : outcome amach :=
   obind acc (fun m =>
     match o with
@@ -375,21 +380,20 @@ Definition astep (f : fmt) (t : list (str * rent aval)) (bk outf : apipe) (rules
                  | Some (p :: ps) => obind (asum (p :: ps)) (fun s => Ok (am_push m (am_fresh m) s))
                  | _ => Crash C_Harness
                  end
-    | OpInit b u => obind (am_user m u) (fun up => obind (ainit f bk up outf) (fun p => Ok (am_set_last m b p)))
-    | OpRun b => match am_last m b with
-                 | None => Crash C_Harness
-                 | Some p => obind (abs_run f p rules) (fun r => Ok (am_with_res m r))
-                 end
-    | OpConvert b u => obind (am_user m u) (fun up => obind (ainit f bk up outf) (fun p =>
-                       obind (abs_run f p rules) (fun r => Ok (am_with_res (am_set_last m b p) r))))
+    | OpInit b u f => obind (am_user m u) (fun up => obind (ainit f bk up (outf f)) (fun _ => Ok (am_set_last m b up)))
+    | OpRun b f => let up := match am_last m b with Some up => up | None => None end in
+                   obind (ainit f bk up (outf f)) (fun p =>
+                   obind (abs_run f p rules) (fun r => Ok (am_with_res (am_set_last m b up) r)))
+    | OpConvert b u f => obind (am_user m u) (fun up => obind (ainit f bk up (outf f)) (fun p =>
+                         obind (abs_run f p rules) (fun r => Ok (am_with_res (am_set_last m b up) r))))
     end).
 (* the specification of a history: what the last conversion must show *)
-Definition aexec (f : fmt) (ops : list aval) (tn : list (str * rent nat)) (bk outf : apipe) (rules : list rule)
+Definition aexec (ops : list aval) (tn : list (str * rent nat)) (bk : apipe) (outf : fmt -> apipe) (rules : list rule)
            (prog : list op) : outcome result :=
   match conv_tab ops tn with
   | None => Crash C_Harness
   | Some t =>
-    obind (fold_left (astep f t bk outf rules) prog
+    obind (fold_left (astep t bk outf rules) prog
                      (Ok {| am_regs := map fst ops; am_lastA := None; am_lastB := None; am_res := None; am_fresh := 0 |}))
           (fun m => match am_res m with Some r => Ok r | None => Crash C_Harness end)
   end.
